@@ -31,11 +31,11 @@ type ListEffect struct {
 }
 
 type Effects struct {
-	Writes      []Write             // direct + call-site-attributed writes in this function
-	ParamWrites map[int]map[string]bool // param index -> kinds {"deref","elem","map"} written through it (transitive)
-	Mod         map[string]bool     // transitive closure: every non-fresh location written by the function or its callees
-	GlobalsMod  map[*ssa.Global]bool
-	List        []ListEffect // transitive, parameter-relative
+	Writes        []Write                 // direct + call-site-attributed writes in this function
+	ParamWrites   map[int]map[string]bool // param index -> kinds {"deref","elem","map"} written through it (transitive)
+	Mod           map[string]bool         // transitive closure: every non-fresh location written by the function or its callees
+	GlobalsMod    map[*ssa.Global]bool
+	List          []ListEffect // transitive, parameter-relative
 	FreeVarWrites map[int]bool
 }
 
